@@ -134,7 +134,7 @@ class ShiftedServer(QueuedResource):
 
     def handle_event(self, event: Event):
         if event.event_type == _SHIFT_CHANGE:
-            return self._handle_shift_change()
+            return self._handle_shift_change(event.context.get("boundary_s"))
 
         # On first real event, schedule the first shift change
         if not self._initialized:
@@ -149,8 +149,14 @@ class ShiftedServer(QueuedResource):
 
         return super().handle_event(event)
 
-    def _handle_shift_change(self) -> list[Event]:
+    def _handle_shift_change(self, boundary_s: float | None = None) -> list[Event]:
         time_s = self.now.to_seconds()
+        # The event fires at the boundary truncated to whole nanoseconds, which can
+        # lie just below the boundary itself (4.1 s -> 4_099_999_999 ns): judge the
+        # shift by the boundary, or the old shift is seen again and the same
+        # transition is re-scheduled at the current instant forever.
+        if boundary_s is not None and boundary_s > time_s:
+            time_s = boundary_s
         new_capacity = self.schedule.capacity_at(time_s)
         old_capacity = self._current_capacity
         self._current_capacity = new_capacity
@@ -168,14 +174,14 @@ class ShiftedServer(QueuedResource):
             self.capacity_changed()
 
         # Schedule the next shift change (self-perpetuating)
-        next_event = self._schedule_next_shift()
+        next_event = self._schedule_next_shift(after_s=time_s)
         return [next_event] if next_event else []
 
-    def _schedule_next_shift(self) -> Event | None:
+    def _schedule_next_shift(self, after_s: float | None = None) -> Event | None:
         """Schedule only the next transition event."""
         from happysimulator.core.temporal import Instant
 
-        current_s = self.now.to_seconds()
+        current_s = self.now.to_seconds() if after_s is None else after_s
         next_t = self.schedule.next_transition_after(current_s)
         if next_t is None:
             return None
@@ -185,6 +191,7 @@ class ShiftedServer(QueuedResource):
             event_type=_SHIFT_CHANGE,
             target=self,
             daemon=True,
+            context={"boundary_s": next_t},
         )
 
     def handle_queued_event(
